@@ -69,7 +69,25 @@ fn case_fn(case: &mut Case, base: &Path, k_runs: usize) -> CaseResult {
     po.max_schema_files = 3;
     let mut gp = gen_project(case, &po);
     let faulty = case.ch.chance(1, 4);
-    if faulty {
+    let fault_kind = if faulty { case.ch.below(4) } else { 0 };
+    if faulty && fault_kind == 2 {
+        // several diagnostics at one position (a field selected without its four required arguments): their
+        // order must be the same in every run
+        case.label("faulty:several-diagnostics-at-one-position");
+        if let Some(root) = gp.gs.schema.root(OpType::Query) {
+            let last = gp.schema_files.len() - 1;
+            gp.schema_files[last].1.push_str(&format!("\nextend type {root} {{ seedMulti(a: Int!, b: Int!, c: Int!, d: Int!, e: Int!, f: Int!): Int }}\n"));
+            let dir = crate::projects::dir_of(&gp.op_files[0].0);
+            gp.op_files.push((format!("{dir}/seed_multi.graphql"), "query SeedMulti { seedMulti again: seedMulti }\n".to_string()));
+        }
+    } else if faulty && fault_kind == 3 {
+        // several extensions without a definition, spread over the schema files: which one is reported must not vary
+        case.label("faulty:several-orphan-extensions");
+        let n = gp.schema_files.len();
+        for k in 0..6 {
+            gp.schema_files[k % n].1.push_str(&format!("\nextend type Orphan{k} {{ x: Int }}\n"));
+        }
+    } else if faulty {
         // faults in the main operation file: diagnostics must be reproducible too
         let mut doc = gp.op_file_models[0].clone();
         let mut n = 0;
@@ -308,6 +326,118 @@ fn case_fn(case: &mut Case, base: &Path, k_runs: usize) -> CaseResult {
 
 /// In-process: the schema verdict must not depend on the order of definitions or on the file that
 /// holds them (valid schemas and schemas with one injected type-system fault).
+/// A configuration that differs from `cfg` in options that shape every kind of output (scalar mappings, optional
+/// inputs, operation naming, exports): what an earlier run in the same directory may have been given.
+fn other_config(ch: &mut crate::choices::Choices, cfg: &str) -> String {
+    let mut c = cfg.to_string();
+    if ch.flip() {
+        c = c.replace(": \"string\"", ": \"bigint\"").replace(": \"number\"", ": \"string\"");
+    }
+    if ch.flip() {
+        if c.contains("      type:\n") {
+            c = c.replacen("      type:\n", "      type:\n        allowUndefinedAsOptionalInput: false\n", 1);
+        } else {
+            c.push_str("      type:\n        allowUndefinedAsOptionalInput: false\n");
+        }
+    }
+    if ch.flip() {
+        c.push_str("      name:\n        capitalizeOperationNames: false\n        queryVariableSuffix: Doc\n        fragmentVariableSuffix: Frag\n        operationResultTypeSuffix: Data\n");
+    }
+    if ch.flip() {
+        c.push_str("      export:\n        defaultExportForOperation: false\n        operationResultType: true\n        variablesType: true\n");
+    }
+    if ch.flip() {
+        c.push_str("      emitSchemaRuntime: true\n");
+    }
+    c
+}
+
+/// What a run leaves behind must not depend on what an earlier run in the same directory was given: `generate` with
+/// other options and/or another text in one operation file, then the project as it is, must give the files a
+/// fresh directory gets.
+fn history_case(case: &mut Case, base: &Path) -> CaseResult {
+    let mut po = ProjectOpts::default();
+    po.max_schema_files = 2;
+    let mut hch = crate::choices::Choices::new((0..24).map(|_| case.ch.raw()).collect());
+    let gp = gen_project(case, &po);
+    let inputs: Vec<String> = gp.schema_files.iter().chain(gp.op_files.iter()).map(|(p, _)| norm(p)).chain(std::iter::once(norm(&format!("{}/graphql.config.yaml", gp.layout.root)))).collect();
+    // the earlier state
+    let mut earlier = gp.clone();
+    let change_config = hch.chance(2, 3);
+    if change_config {
+        earlier.config = other_config(&mut hch, &gp.config);
+        case.label("earlier-run-with-other-options");
+    }
+    let change_op = !change_config || hch.flip();
+    if change_op {
+        let i = hch.below(earlier.op_files.len());
+        earlier.op_files[i].1 = "query EarlierText { __typename }\n".to_string();
+        case.label("earlier-run-with-other-operation-text");
+    }
+    if earlier.config == gp.config && !change_op {
+        case.label("earlier-state-equal");
+    }
+    let detail = json!({"config": gp.config, "earlier_config": earlier.config,
+        "files": gp.schema_files.iter().chain(gp.op_files.iter()).map(|(p, t)| json!({"path": p, "text": t})).collect::<Vec<_>>(),
+        "earlier_operation_files": earlier.op_files.iter().map(|(p, t)| json!({"path": p, "text": t})).collect::<Vec<_>>()});
+    let fresh_base = base.join("fresh");
+    let used_base = base.join("used");
+    let fresh = write_project(&gp, &fresh_base);
+    let used = write_project(&earlier, &used_base);
+    let res = (|| -> CaseResult {
+        let r0 = run_cli(&used.path(&gp.layout.root), &["generate", "--output-format", "json"]);
+        if r0.crashed() {
+            return Err(Failure::new("cli-crashed", r0.stderr.lines().find(|l| l.contains("panicked")).unwrap_or("crash").to_string(), json!({"detail": detail, "stderr": r0.stderr})));
+        }
+        // (an earlier run that fails is a legitimate history too: it writes nothing)
+        if r0.status == Some(0) {
+            case.label("earlier-run-succeeded");
+        }
+        // now the project as it is
+        used.write(&norm(&format!("{}/graphql.config.yaml", gp.layout.root)), &gp.config);
+        for (p, t) in &gp.op_files {
+            used.write(p, t);
+        }
+        let r1 = run_cli(&used.path(&gp.layout.root), &["generate", "--output-format", "json"]);
+        let rf = run_cli(&fresh.path(&gp.layout.root), &["generate", "--output-format", "json"]);
+        case.evals(2);
+        if r1.crashed() || rf.crashed() {
+            return Err(Failure::new("cli-crashed", "generate crashed".to_string(), json!({"detail": detail, "stderr": [r1.stderr, rf.stderr]})));
+        }
+        if r1.status != rf.status {
+            return Err(Failure::new("history-dependent-status", format!("generate exits {:?} after an earlier run and {:?} in a fresh directory", r1.status, rf.status), json!({"detail": detail, "stdout": [r1.stdout, rf.stdout]})));
+        }
+        if rf.status != Some(0) {
+            return Err(Failure::new("precondition:generate-failed", format!("generate fails on a valid project: {}", rf.stdout.chars().take(300).collect::<String>()), detail.clone()));
+        }
+        let a = outputs_snapshot(&used, &inputs);
+        let b = outputs_snapshot(&fresh, &inputs);
+        // every file of the fresh run must be there with the same bytes; files only the earlier state produces
+        // (outputs named after the earlier options) may remain
+        for (k, v) in &b {
+            match a.get(k) {
+                None => return Err(Failure::new("history-dependent-files", format!("{k} is written in a fresh directory but missing after an earlier run"), detail.clone())),
+                Some(x) if x != v => {
+                    return Err(Failure::new(
+                        "history-dependent-output",
+                        format!("{k} differs from what a fresh directory gets (left over from the earlier run?)"),
+                        json!({"detail": detail, "file": k, "after_earlier_run": x, "fresh": v}),
+                    ))
+                }
+                _ => {}
+            }
+        }
+        if r0.status == Some(0) && (change_config || change_op) {
+            case.nontrivial(&(&gp.config, &earlier.config, &gp.op_files));
+        }
+        case.sample(|| json!({"earlier_config_differs": earlier.config != gp.config, "earlier_operation_text_differs": change_op, "files_compared": b.len()}));
+        Ok(())
+    })();
+    fresh.remove();
+    used.remove();
+    res
+}
+
 fn schema_verdict_case(case: &mut Case) -> CaseResult {
     use crate::gen_schema::{gen_schema, split_into_extensions, SchemaGenOpts};
     use crate::model::MTsDef;
@@ -438,6 +568,9 @@ pub fn run(env: &Env) -> i32 {
     rep.shrink_iters = None;
     rep.note("campaign schema-verdict-order (in-process): valid schemas (25%) or schemas with one injected type-system fault (75%, the 25 C05 operators), split into definitions and extensions, three random permutations each (extension order per name kept) redistributed over 1-3 files: accept/reject must not change");
     rep.note("campaign import-order (in-process): random import graphs over 2-8 files (cycles, diamonds, repeated lines, six path spellings, equal fragment names in different files), every file as root, resolved three times: same definitions in the same order. Non-trivial: >= 3 imported definitions");
+    rep.note("campaign history (built CLI): `generate` runs in a directory in which an earlier `generate` ran with other options (scalar mappings, allowUndefinedAsOptionalInput, naming, exports, emitSchemaRuntime) and/or another text in one operation file; every file a fresh directory gets must be there with the same bytes (no state carried from one run to the next: the statement's `regardless of` covers what an earlier run left behind; this is also where a stale declaration would contradict C09/C10/C14). Non-trivial: the earlier run succeeded and differed");
+    let b3 = base.join("history");
+    rep.campaign("history", env.cases(150, 1_500), (300, 1800), move |case| history_case(case, &b3));
     rep.campaign("import-order", env.cases(20_000, 300_000), (20, 400), import_order_case);
     rep.campaign("schema-verdict-order", env.cases(30_000, 400_000), (200, 1500), schema_verdict_case);
     rep.finish()
